@@ -7,7 +7,9 @@ package protocol_test
 import (
 	"encoding/binary"
 	"fmt"
+	"runtime/debug"
 	"strings"
+	"sync"
 	"testing"
 	"time"
 
@@ -49,14 +51,14 @@ func TestVerifC12Objects(t *testing.T) {
 		combos = append(combos, c12Combo{tt, verifsim.C12ToRelated, verifsim.C12PlGarbage})
 	}
 	perm := verifutil.Stream(12, 3).Perm(len(combos))
-	n := c12Scale(42000, 1400000)
+	n := c12Scale(36000, 1200000)
 	for i := 0; i < n && !c.stop; i++ {
 		r := verifutil.Stream(12, 4, uint64(i))
 		c12TxCase(c, s, r, i, combos[perm[i%len(combos)]])
 		if i%4 == 3 {
 			c12ObjectCase(c, s, r, i)
 		}
-		if i%9 == 8 {
+		if i%12 == 11 {
 			c12SubChainCase(c, s, r, i)
 		}
 		if i%300 == 299 {
@@ -193,13 +195,15 @@ func c12TxCase(c *c12Ctx, s *c12Sut, r *verifutil.Rng, i int, k c12Combo) {
 			}
 		}
 		branch += "/block:" + cls
-		var aerr error
-		if !c.call("Blockchain.AddBlock", raw, true, func() { aerr = v.Chain.AddBlock(blk, nil, v.Stats) }) {
-			return
-		}
-		if aerr == nil {
-			rep.Count("carrier_blocks_inserted", 1)
-			s.rollback(c)
+		if i%4 == 1 { // insertion = the same validation + commit; a carrier block is refused before the commit
+			var aerr error
+			if !c.call("Blockchain.AddBlock", raw, true, func() { aerr = v.Chain.AddBlock(blk, nil, v.Stats) }) {
+				return
+			}
+			if aerr == nil {
+				rep.Count("carrier_blocks_inserted", 1)
+				s.rollback(c)
+			}
 		}
 	}
 	// a block the real proposer code builds around the tx (fully valid if the tx is): twin technique
@@ -472,17 +476,41 @@ func c12SubChainCase(c *c12Ctx, s *c12Sut, r *verifutil.Rng, i int) {
 		bundles[k].Block = &types.Block{Header: &types.Header{EmptyBlockHeader: &types.EmptyBlockHeader{ParentHash: b.Header.ParentHash(), Height: b.Height(), Time: b.Header.Time()}}, Body: &types.Body{}}
 		label = "forged-empty-block"
 	}
-	start := bundles[0].Block.Height() - 1
-	if r.Intn(12) == 0 {
-		start = []uint64{0, 1, start - 1, start + 1, ^uint64(0)}[r.Intn(5)]
-		label += "/other-start"
+	if r.Intn(8) == 0 { // the first block claims another height (the common ancestor is derived from it)
+		b := bundles[0].Block
+		h := []uint64{0, 1, 2, b.Height() - 1, b.Height() + 1, s.headH, ^uint64(0)}[r.Intn(7)]
+		bundles[0].Block = &types.Block{Header: &types.Header{EmptyBlockHeader: &types.EmptyBlockHeader{ParentHash: b.Header.ParentHash(), Height: h, Time: b.Header.Time()}}, Body: &types.Body{}}
+		label += "/first-height-forged"
 	}
-	c.desc = fmt.Sprintf("objects #%d subchain %s (%d bundles from %d)", i, label, len(bundles), start)
-	rep.Progress("%s", c.desc)
+	// the bundles as the BlocksRange answer a forked peer would send (headers + certificates; the
+	// bodies are fetched by content id): this is the replayable input of the case
+	var items []c12RangeItem
+	for _, b := range bundles {
+		items = append(items, c12RangeItem{Header: b.Block.Header, Cert: b.Cert})
+	}
+	wire := c12RangePayload(0, items)
+	c.desc = fmt.Sprintf("objects #%d subchain %s (%d bundles, heights %d..%d, head %d)", i, label, len(bundles), bundles[0].Block.Height(), bundles[len(bundles)-1].Block.Height(), s.headH)
+	rep.Progress("%s hex=%s", c.desc, c12Hex(wire, 300))
 	rep.Count("inputs", 1)
 	rep.Count("subchain_cases", 1)
+	// (a) the whole consumer: what loadAndVerifyFork runs on the bundles the seeker delivered
+	ch := make(chan types.BlockBundle, len(bundles))
+	for _, b := range bundles {
+		ch <- b
+	}
+	close(ch)
+	var perr error
+	if !c.call("ForkResolver.processBlocks", wire, true, func() { perr = s.fr.VerifC12ProcessBlocks(ch, s.pidA) }) {
+		return
+	}
+	if s.fr.HasLoadedFork() {
+		rep.Count("subchain_fork_applicable", 1)
+		s.fr.VerifC12DropFork()
+	}
+	// (b) ValidateSubChain as processBlocks calls it (common height = first height - 1)
+	start := bundles[0].Block.Height() - 1
 	var err error
-	if !c.call("Blockchain.ValidateSubChain", nil, true, func() { err = v.Chain.ValidateSubChain(start, bundles) }) {
+	if !c.call("Blockchain.ValidateSubChain", wire, true, func() { err = v.Chain.ValidateSubChain(start, bundles) }) {
 		return
 	}
 	if err == nil {
@@ -493,7 +521,7 @@ func c12SubChainCase(c *c12Ctx, s *c12Sut, r *verifutil.Rng, i int) {
 	} else if label == "valid" {
 		rep.Note("the unmodified ahead chain was refused by ValidateSubChain: %v", err)
 	}
-	rep.Distinct("subchain", label, c12ErrClass(err))
+	rep.Distinct("subchain", label, c12ErrClass(perr), c12ErrClass(err))
 }
 
 // ------------------------------------------------------------------ forged lengths and range overflow
@@ -512,7 +540,7 @@ func TestVerifC12Forged(t *testing.T) {
 	// (1) S2 frames whose header claims a decoded length the body cannot deliver
 	claims := []uint64{1 << 20, 16 << 20, 60 << 20, 65 << 20, 128 << 20, 512 << 20, 1 << 30, 2 << 30, 1<<32 - 1}
 	for _, claimed := range claims {
-		for _, tail := range [][]byte{nil, {0x00}, {0x04, 0x41}, r.Bytes(6)} {
+		for _, tail := range [][]byte{nil, {0x04, 0x41}, r.Bytes(6)} {
 			var hdr [10]byte
 			frame := append(append([]byte{1}, hdr[:binary.PutUvarint(hdr[:], claimed)]...), tail...)
 			c.desc = fmt.Sprintf("forged S2 header: %d-byte frame claims %d bytes", len(frame), claimed)
@@ -520,7 +548,9 @@ func TestVerifC12Forged(t *testing.T) {
 			rep.Count("inputs", 1)
 			rep.Count("forged_length_frames", 1)
 			var err error
-			if !c.call("protocol.Decode", frame, true, func() { _, err = protocol.Decode(frame) }) {
+			ok := c.call("protocol.Decode", frame, true, func() { _, err = protocol.Decode(frame) })
+			debug.FreeOSMemory() // the address-space cap counts what the collector has not returned yet
+			if !ok {
 				continue // reported; do not repeat the allocation through the stream path
 			}
 			rep.Count("forged_length_rejected_cheaply", 1)
@@ -540,16 +570,17 @@ func TestVerifC12Forged(t *testing.T) {
 func c12Overflow(c *c12Ctx, s *c12Sut) {
 	rep := c.rep
 	env := s.env
-	if len(env.Ahead) < 2 {
-		rep.Inconcl("range overflow case needs two blocks ahead of the victim")
+	if len(env.Ahead) < 3 {
+		rep.Inconcl("range overflow case needs three blocks ahead of the victim")
 		return
 	}
 	H := s.headH
 	ch := s.dl.SeekBlocks(H+1, H+1, []peer.ID{s.pidA})
 	id := protocol.VerifBatchId()
-	items := []c12RangeItem{{env.Ahead[0].Header, env.AheadCerts[0], nil}, {env.Ahead[1].Header, env.AheadCerts[1], nil}}
+	// capacity 1: one block is taken by the consumer, one more fits into the buffer, the third send blocks
+	items := []c12RangeItem{{env.Ahead[0].Header, env.AheadCerts[0], nil}, {env.Ahead[1].Header, env.AheadCerts[1], nil}, {env.Ahead[2].Header, env.AheadCerts[2], nil}}
 	stream := c12StreamBytes(c12Frame(protocol.BlocksRange, c12RangePayload(id, items), 0, 0))
-	c.desc = "range overflow: 2 blocks answered to a request for 1"
+	c.desc = "range overflow: 3 blocks answered to a request for 1"
 	rep.Progress("%s hex=%s", c.desc, c12Hex(stream, 200))
 	rep.Count("inputs", 1)
 	rep.Count("range_overflow_cases", 1)
@@ -595,9 +626,126 @@ consume:
 			return
 		}
 		rep.Violation("hang:handle/BlocksRange", fmt.Sprintf("IdenaGossipHandler.handle never returns for a BlocksRange answer that carries more blocks than the open request asked for: "+
-			"the node asked peer for heights %d..%d (batch %d, channel capacity 1), the peer answered with 2 well-formed blocks; the consumer took %d and finished, the peer's listening "+
+			"the node asked peer for heights %d..%d (batch %d, channel capacity 1), the peer answered with 3 well-formed blocks; the consumer took %d and finished, the peer's listening "+
 			"goroutine is parked for ever in `batch.headers <- b` (no receiver left), so the peer is never unregistered. input (%d bytes) %s", H+1, H+1, id, got, len(stream), c12Hex(stream, 1200)),
 			map[string]interface{}{"input_hex": c12Hex(stream, 1<<16), "goroutine": g, "entry": "handle/BlocksRange", "case": c.desc})
 		c.stop = true
 	}
+}
+
+// ------------------------------------------------------------------ concurrent peers
+
+// TestVerifC12Concurrent: the same node, but several hostile peers whose listening goroutines
+// run handle() at the same time (one goroutine per connection, as runListening does), mostly
+// with well-formed objects so that the node's shared structures are reached concurrently.
+// Oracles: panic in a listening goroutine (captured), process-fatal events on the node's own
+// goroutines (concurrent map writes, panics; classified by the driver), watchdog per round.
+// No allocation meter here (it needs a single-threaded process).
+func TestVerifC12Concurrent(t *testing.T) {
+	if !verifutil.Enabled() {
+		t.Skip("verif harness")
+	}
+	rep := verifutil.NewReport()
+	defer rep.Write()
+	c := &c12Ctx{t: t, rep: rep}
+	env := c12Env(t, rep, 4)
+	s := c12NewSut(t, "populated", env, env.Victim)
+	s.c12BuildCorpus(verifutil.Stream(12, 8))
+	const P = 4
+	type hp struct {
+		st *c12Stream
+		p  *c12Peer
+	}
+	var peers []hp
+	for k := 0; k < P; k++ {
+		st := &c12Stream{conn: &c12Conn{id: peer.ID(fmt.Sprintf("c12-concurrent-%d", k))}}
+		peers = append(peers, hp{st, s.connect(st)})
+	}
+	codes := []uint64{protocol.NewTx, protocol.NewTx, protocol.NewTx, protocol.FlipKey, protocol.FlipKeysPackage, protocol.FlipBody, protocol.Vote, protocol.ProposeBlock,
+		protocol.ProposeProof, protocol.Push, protocol.BatchPush, protocol.Pull, protocol.BatchFlipKey, protocol.GetBlocksRange, protocol.GetBlockByHash,
+		protocol.UpdateShardId, protocol.Block, protocol.SnapshotManifest, protocol.GetForkBlockRange}
+	rounds := c12Scale(160, 6000)
+	const perPeer = 24
+	for rd := 0; rd < rounds && !c.stop; rd++ {
+		r := verifutil.Stream(12, 9, uint64(rd))
+		// inputs are generated while the node is idle (the generator reads the canonical state)
+		plan := make([][][]byte, P)
+		for k := 0; k < P; k++ {
+			for j := 0; j < perPeer; j++ {
+				code := codes[r.Intn(len(codes))]
+				var payload []byte
+				label := ""
+				switch r.Pick(45, 30, 25) {
+				case 0: // well-formed typed object aimed at the head
+					if code == protocol.NewTx {
+						tc := env.W.C12HostileTx(r, s.node.R, verifsim.C12TxTypes[r.Intn(len(verifsim.C12TxTypes))], verifsim.C12ToRelated, verifsim.C12PlOwn)
+						payload, label = c12Must(tc.Tx.ToBytes()), "tx"
+					}
+				case 1:
+					code, payload, label = c12Typed(s, r)
+				}
+				if payload == nil {
+					idxs := s.byCode[code]
+					if len(idxs) == 0 {
+						continue
+					}
+					it := s.corpus[idxs[r.Intn(len(idxs))]]
+					payload, label = it.Payload, it.Label
+					if it.Range != nil {
+						continue
+					}
+					if r.Intn(100) < 35 {
+						if m, l, ok := verifutil.MutateWire(r, payload, 300); ok {
+							payload, label = m, label+"+"+l
+						}
+					}
+				}
+				_ = label
+				plan[k] = append(plan[k], c12StreamBytes(c12Frame(code, payload, 0, 0)))
+			}
+		}
+		c.desc = fmt.Sprintf("concurrent round %d (%d peers x %d frames)", rd, P, perPeer)
+		rep.Progress("%s", c.desc)
+		done := make(chan struct{})
+		var wg sync.WaitGroup
+		for k := 0; k < P; k++ {
+			wg.Add(1)
+			go func(k int) { // the listening goroutine of peer k
+				defer wg.Done()
+				for j, stream := range plan[k] {
+					peers[k].st.set(stream)
+					var err error
+					pv, stack := verifutil.Catch(func() { err = peers[k].p.handle() })
+					rep.Eval(1)
+					rep.Count("inputs", 1)
+					rep.Count("concurrent_frames", 1)
+					if err == nil {
+						rep.Count("concurrent_handled", 1)
+					}
+					if pv != nil {
+						if c12HarnessPanic(stack) {
+							rep.Inconcl("panic in harness code in a concurrent round: %v: %s", pv, verifutil.Trunc(verifutil.FirstFrames(stack, 4), 800))
+							continue
+						}
+						rep.Violation("panic:"+verifutil.RepoFrame(stack), fmt.Sprintf("handle panicked while %d peers were being served concurrently: %v | round %d peer %d frame %d | input (%d bytes) %s | %s", P, pv, rd, k, j,
+							len(stream), c12Hex(stream, 1200), strings.ReplaceAll(verifutil.FirstFrames(stack, 7), "\n", " ")), map[string]interface{}{"input_hex": c12Hex(stream, 1<<16), "stack": verifutil.Trunc(stack, 12000), "round": rd, "peer": k})
+					}
+				}
+			}(k)
+		}
+		go func() { wg.Wait(); close(done) }()
+		select {
+		case <-done:
+		case <-time.After(c12Soft + c12Hard):
+			rep.Violation("hang:handle/concurrent", fmt.Sprintf("a round of %d concurrently served peers did not finish within %v", P, c12Soft+c12Hard), map[string]interface{}{"round": rd, "goroutines": verifutil.Trunc(verifutil.AllStacks(), 60000)})
+			c.stop = true
+			continue
+		}
+		c12Settle(c)
+		if rd%10 == 9 {
+			c12Maintain(c, s)
+		}
+	}
+	rep.Count("concurrent_rounds", 1)
+	env.W.Cleanup()
 }
